@@ -19,6 +19,14 @@ def run(tier):
         for p in progs:
             if p.name in ("mixed14", "ortho89", "nestutil"):
                 p.args = ["--batch", "1"]  # the big programs: all single requests + deviations; pairs are covered on the smaller ones
+    if not thorough:
+        # the small utility/random program once more with two deviations restricted to the environment's answers
+        # (a utility answer that makes the nested Random region win AND a generator output that picks a late sub-state)
+        d2 = en.curated(names=["utilrand"])
+        for p in d2:
+            p.args = ["--dev", "2", "--batch", "1", "--classes", str(en.cls("UTIL", "RNG", "RANK"))]
+            p.label += "/answers-dev2"
+        progs += d2
     res = en.run_all(chk, "C01", progs, args, timeout=(en.TD + 900 if thorough else 400))
     en.aggregate(chk, res, "C01")
     chk.coverage["explanation"] = (
